@@ -225,6 +225,8 @@ def named(R, b, v, bs, sk, nf, sp, fields, container, variant_ident):
             R.bad("C08.MISSING", body, "field `%s` has %d missing-field checks, expected exactly one%s" % (f["ident"], len(ms), where), b.span)
             continue
         m = ms[0]
+        if m["true_t"] is None or not all(v.postdominates(s.bb, m["true_t"]) for s in m["sites"]):
+            R.bad("C08.MISSING", body, "an absent `%s` is not always reported (the report is conditional on something else)%s" % (f["ident"], where), b.span)
         if m["in_loop"] or not v.dominates(nf.loop_header, m["bb"]):
             R.bad("C08.MISSING", body, "the missing check of `%s` is not made after the whole map was visited%s" % (f["ident"], where), b.span)
         if f["missing_fn"]:
